@@ -4,6 +4,7 @@
 -/
 import BufrModel.Lang.PathParser
 import BufrModel.Gen.PyDataquery
+import BufrModel.Lemmas.PathSrc
 namespace Bufr.PathLang
 open PyGen.dataquery
 
@@ -18,18 +19,6 @@ theorem C15_src_const_separators (c : Char) :
 /-- the separator a path starts with when none is written (`handle_separator(PATH_SEPARATOR_DESCEND)`)
     is the initial `curSep` of the model's parser state -/
 theorem C15_src_const_default_separator : [({} : PS).curSep] = PATH_SEPARATOR_DESCEND := by decide
-
-/-- the string tag the Python parser uses for a state of the model -/
-def stateTag : PState → List Char
-  | .startParsing => STATE_START_PARSING
-  | .startSubset => STATE_START_SUBSET
-  | .subsetSlice0 => STATE_START_SUBSET_SLICE_0
-  | .subsetSliceX => STATE_START_SUBSET_SLICE_X
-  | .stopSubsetSlice => STATE_STOP_SUBSET_SLICE
-  | .startId => STATE_START_ID
-  | .slice0 => STATE_START_SLICE_0
-  | .sliceX => STATE_START_SLICE_X
-  | .stopSlice => STATE_STOP_SLICE
 
 /-- The nine state tags are pairwise distinct, so the string comparisons `self.current_state == STATE_X`
     of the Python parser distinguish exactly the constructors of the model's `PState`. -/
